@@ -6,8 +6,8 @@ def B(qc, tc, **kw):
     return {"quick": q, "thorough": t}
 
 BUDGET = {
-    "C04": B(3600, 36000),
-    "C09": B(3600, 36000),
+    "C04": B(2800, 30000),
+    "C09": B(2800, 30000),
     "C01": B(3000, 30000),
     "C02": B(3000, 30000, foreign=["ASSERT:m_activeOp"]),
     "C03": B(2200, 22000, foreign=["ASSERT:m_activeOp"]),
@@ -19,13 +19,13 @@ BUDGET = {
     "C11": B(3000, 28000),
     "C06": B(1800, 18000),
     "C13": B(1500, 14000),
-    "C17": B(1500, 12000, cpu_limit=60),
+    "C17": B(1200, 10000, cpu_limit=60),
     "C18": B(1200, 9000, cpu_limit=60),
-    "C19": B(7500, 70000),
-    "C14": B(4800, 40000),
-    "C05": B(4000, 36000),
+    "C19": B(6000, 60000),
+    "C14": B(3000, 36000),
+    "C05": B(3200, 32000),
     "C10": B(6000, 50000),
-    "C16": B(4800, 40000),
+    "C16": B(3600, 36000),
 }
 
 SCHED = ("Each case is a small concurrent program plus a schedule: the executor interposes the pthread API, runs exactly one thread at a time "
